@@ -11,6 +11,12 @@ for d in sorted(ROOT.iterdir()):
         continue
     meta = json.loads((d / 'meta.json').read_text()) if (d / 'meta.json').exists() else {'id': d.name, 'property': d.name[:3]}
     patch = d / 'patch_head.diff' if (d / 'patch_head.diff').exists() else d / 'patch.diff'
+    if 'needs_to_manifest' not in meta and (d / 'notes.md').exists():
+        import re
+        txt = (d / 'notes.md').read_text()
+        m = re.search(r'(?is)(needs?[^\n]*manifest[^\n]*\n.*?)(\n#|\n\*\*|\Z)', txt)
+        meta['needs_to_manifest'] = (m.group(1) if m else txt)[:900].strip()
+        meta['breaks'] = txt[:400].strip()
     pid = meta['property']
     st = subprocess.run(['git', '-C', '/repo', 'status', '--short'], capture_output=True, text=True).stdout.strip()
     if st:
